@@ -24,7 +24,7 @@ RULE = ('enable masks: 3 bias x 3 walk (only where bias) x 3 noise x 9 scale/mis
         'the four hand-written configurations of the existing tests; distinct = distinct (mask, values)'
         ' Round 3: integer-typed irregular time index (whole seconds); random update / reset / correct / read-back histories on one model against a fresh model holding the same estimates.')
 ASSUMPTIONS = ['noise scaling is read off deterministically through a RandomState subclass that records randn']
-REQUIRED_OBS = ['integer_typed_time_index', 'history_corrections_checked', 'invariant_evaluations', 'roundtrip_checked', 'output_matrix_checked', 'split_updates_checked',
+REQUIRED_OBS = ['negative_disable_marks', 'integer_typed_time_index', 'history_corrections_checked', 'invariant_evaluations', 'roundtrip_checked', 'output_matrix_checked', 'split_updates_checked',
                 'naming_checked', 'noise_scaling_checked', 'walk_scaling_checked', 'from_model_checked']
 REQUIRED_CLASSES = {'quick': ['mask_random'], 'thorough': ['mask_random', 'mask_exhaustive']}
 EXHAUSTIVE = {'quick': False, 'thorough': False}
@@ -162,7 +162,11 @@ def encode(rng, on, values, shape, allow_scalar=True):
         return None if r < 0.5 else (0.0 if r < 0.75 else np.zeros(shape))
     if on.all() and allow_scalar and rng.random() < 0.3:
         return float(values.flat[0])
-    a = np.where(on, values if not (on.all() and False) else values, 0.0)
+    # a disabled axis is marked by ANY non-positive element (documented): zero or a negative flag such as -1
+    off = np.where(rng.random(np.shape(values)) < 0.4, -10 ** rng.uniform(-3, 1, np.shape(values)), 0.0)
+    a = np.where(on, values, off)
+    if (a < 0).any():
+        bump('negative_disable_marks')
     if on.all() and allow_scalar:
         return a
     return a if rng.random() < 0.7 else a.tolist()
@@ -223,7 +227,7 @@ def run_case(case):
         bump('from_model_checked')
         if np.any(((par.transform - np.eye(3)) != 0) != sm_on) or np.any((par.bias != 0) != bias_on):
             fail('from_model_mask', 'from_EstimationModel parameters are not non-trivial exactly on the enabled entries')
-        if not np.array_equal(par.noise, model.noise) or not np.array_equal(par.bias_walk, model.bias_walk):
+        if not np.array_equal(par.noise, np.maximum(model.noise, 0)) or not np.array_equal(par.bias_walk, np.maximum(model.bias_walk, 0)):
             fail('from_model_noise', 'from_EstimationModel did not carry noise / bias_walk over')
         # ---- simulated data, noise-free -------------------------------------------------------------------
         m = int(rng.integers(5, 40))
